@@ -239,7 +239,7 @@ def c22_2(cx):
              {"callee": "interned::insert_unique_erased"}, key="W4' interned::insert_unique_erased")
 
 
-@ob("C22.1", ["C22", "C14", "C15", "C21"], also=["C06"], nec="a guard whose destructor does not release (or that is forgotten without an explicit release) leaks a stack frame, a claim, a flag or a provisional memo when user code unwinds", kind="GUARDTYPE")
+@ob("C22.1", ["C22", "C14", "C15", "C21"], also=["C06", "C11"], nec="a guard whose destructor does not release (or that is forgotten without an explicit release) leaks a stack frame, a claim, a flag or a provisional memo when user code unwinds", kind="GUARDTYPE")
 def c22_1(cx):
     """Guard table: ActiveQueryGuard (Drop -> QueryStack::pop -> ActiveQuery::clear resets everything unconditionally; forget only after pop_into_revisions / pop_detached_completion), DisableLocalCancellationGuard (Drop restores was_disabled), PoisonProvisionalIfPanicking (Drop inserts the poison memo when panicking; constructed before the iteration loop), TableDropGuard x2 (Drop drops the remaining memos; forget only after take_memos returned), ClaimGuard (C19.5)."""
     f = cx.facts
@@ -264,7 +264,9 @@ def c22_1(cx):
             with cx.only("C22", "C14", "C15", "C21", "C06"):
                 cx.must_call(clr, rx, "ActiveQuery::clear always runs " + what)
     if "accumulator" in f.features:
-        cx.must_call(clr, r"AccumulatedMap::clear$", "ActiveQuery::clear always clears the accumulated values")
+        with cx.only("C22", "C14", "C15", "C21", "C11"):
+            # values pushed by a query that then unwound must not leak into the next query using the pooled frame (C11)
+            cx.must_call(clr, r"AccumulatedMap::clear$", "ActiveQuery::clear always clears the accumulated values")
     ch = [x for x in cx.stores(clr) if x[1].endswith(".cycle_heads")]
     rets = clr.return_blocks()
     ok = bool(ch) and all(r not in clr.reachable(0, "normal", cut_blocks={x[0].bb for x in ch}) or any(x[0].bb == r for x in ch) for r in rets)
